@@ -27,6 +27,7 @@ inductive Err where
   | invalidRecoveryClient   -- clienttypes.ErrInvalidRecoveryClient
   | routeNotFound           -- clienttypes.ErrRouteNotFound
   | clientNotActive         -- clienttypes.ErrClientNotActive
+  | invalidHeight           -- ibcerrors.ErrInvalidHeight (proof height above the chain's own height)
   | storePanic              -- not an error value: the SDK store panics on an empty key (`AssertValidKey`)
 deriving DecidableEq, Repr
 
@@ -34,9 +35,18 @@ deriving DecidableEq, Repr
 `some keyPath` is `MerklePath{KeyPath: keyPath}` -/
 abbrev Path := Option (List Bytes)
 
-/-- `LightClientModule.VerifyMembership` (clientID, height and both delay periods are ignored by the code) -/
-def verifyMembership (store : KV) (proof : Bytes) (path : Path) (value : Bytes) : Except Err Unit :=
-  if proof != sentinelProof then .error .invalidProof
+/-- a height: (revision number, revision height) -/
+abbrev Ht := Nat × Nat
+
+/-- `Height.GT`: revision number first, then revision height (C17 `compare_spec`) -/
+def heightGT (a b : Ht) : Bool := decide (a.1 > b.1) || (a.1 == b.1 && decide (a.2 > b.2))
+
+/-- `LightClientModule.VerifyMembership` (clientID and both delay periods are ignored by the code);
+`self` is `clienttypes.GetSelfHeight(ctx)` -/
+def verifyMembership (store : KV) (height self : Ht) (proof : Bytes) (path : Path) (value : Bytes) :
+    Except Err Unit :=
+  if heightGT height self then .error .invalidHeight
+  else if proof != sentinelProof then .error .invalidProof
   else match path with
     | none => .error .invalidType
     | some kp =>
@@ -47,8 +57,9 @@ def verifyMembership (store : KV) (proof : Bytes) (path : Path) (value : Bytes) 
         | some bz => if bz != value then .error .failedMembership else .ok ()
 
 /-- `LightClientModule.VerifyNonMembership` -/
-def verifyNonMembership (store : KV) (proof : Bytes) (path : Path) : Except Err Unit :=
-  if proof != sentinelProof then .error .invalidProof
+def verifyNonMembership (store : KV) (height self : Ht) (proof : Bytes) (path : Path) : Except Err Unit :=
+  if heightGT height self then .error .invalidHeight
+  else if proof != sentinelProof then .error .invalidProof
   else match path with
     | none => .error .invalidType
     | some kp =>
@@ -79,13 +90,13 @@ def route (s : State) : Except Err Unit :=
 
 inductive Op where
   -- the light client module called directly
-  | verifyMembership (proof : Bytes) (path : Path) (value : Bytes)
-  | verifyNonMembership (proof : Bytes) (path : Path)
+  | verifyMembership (height self : Ht) (proof : Bytes) (path : Path) (value : Bytes)
+  | verifyNonMembership (height self : Ht) (proof : Bytes) (path : Path)
   | initClient | verifyClientMessage | checkForMisbehaviour | updateStateOnMisbehaviour | updateState
   | recoverClient | verifyUpgrade
   -- through the 02-client keeper, client id "09-localhost" / "09-localhost-N"
-  | kVerifyMembership (proof : Bytes) (path : Path) (value : Bytes)
-  | kVerifyNonMembership (proof : Bytes) (path : Path)
+  | kVerifyMembership (height self : Ht) (proof : Bytes) (path : Path) (value : Bytes)
+  | kVerifyNonMembership (height self : Ht) (proof : Bytes) (path : Path)
   | kCreate            -- Keeper.CreateClient(ctx, "09-localhost", …)
   | kUpdate            -- Keeper.UpdateClient(ctx, id, msg)
   | kUpgrade           -- Keeper.UpgradeClient(ctx, id, …)
@@ -103,8 +114,8 @@ def resOf : Except Err Unit → Res
   | .error e => .err e
 
 def step (s : State) : Op → State × Res
-  | .verifyMembership p path v => (s, resOf (verifyMembership s.store p path v))
-  | .verifyNonMembership p path => (s, resOf (verifyNonMembership s.store p path))
+  | .verifyMembership h sh p path v => (s, resOf (verifyMembership s.store h sh p path v))
+  | .verifyNonMembership h sh p path => (s, resOf (verifyNonMembership s.store h sh p path))
   | .initClient => (s, resOf initClient)
   | .verifyClientMessage => (s, resOf verifyClientMessage)
   | .checkForMisbehaviour => (s, .bool checkForMisbehaviour)
@@ -112,18 +123,18 @@ def step (s : State) : Op → State × Res
   | .updateState => (s, .ok)                   -- no-op, returns [self height]
   | .recoverClient => (s, resOf recoverClient)
   | .verifyUpgrade => (s, resOf verifyUpgradeAndUpdateState)
-  | .kVerifyMembership p path v =>
+  | .kVerifyMembership h sh p path v =>
     match route s with
     | .error e => (s, .err e)
     | .ok () =>
       if !statusActive then (s, .err .clientNotActive)
-      else (s, resOf (verifyMembership s.store p path v))
-  | .kVerifyNonMembership p path =>
+      else (s, resOf (verifyMembership s.store h sh p path v))
+  | .kVerifyNonMembership h sh p path =>
     match route s with
     | .error e => (s, .err e)
     | .ok () =>
       if !statusActive then (s, .err .clientNotActive)
-      else (s, resOf (verifyNonMembership s.store p path))
+      else (s, resOf (verifyNonMembership s.store h sh p path))
   | .kCreate => (s, .err .invalidClientType)   -- rejected before GenerateClientIdentifier / Route
   | .kUpdate =>
     match route s with
